@@ -302,7 +302,7 @@ def _(p, i, r):
 @op("V22", "decl_assign", "DECL_ASSIGN_LINE", ("decl",))
 def _(p, i, r):
     l = p.lines[i]
-    if l.meta.get("ptr") or l.meta.get("arr"):
+    if l.meta.get("ptr") or l.meta.get("arr") or l.meta.get("qualified"):
         return None
     if l.segs[1][1] != "type" or l.segs[1][0] in ("float", "double"):
         return None
@@ -313,6 +313,8 @@ def _(p, i, r):
 @op("V23", "mult_decl", "MULT_DECL_LINE", ("decl",))
 def _(p, i, r):
     l = p.lines[i]
+    if l.meta.get("qualified"):
+        return None
     l.segs[-1:] = [(",", "op:comma"), SP, ("zz8", "id:var"), (";", "punct")]
     return i
 
@@ -329,7 +331,7 @@ def _(p, i, r):
 @op("V25", "vla", "VLA_FORBIDDEN", ("decl",))
 def _(p, i, r):
     l = p.lines[i]
-    if l.meta.get("arr"):
+    if l.meta.get("arr") or l.meta.get("qualified"):
         return None
     # needs an integer variable declared before: use a parameter-free name (any identifier is a VLA size)
     l.segs[-1:] = [("[", "punct"), ("zz", "id:var"), ("]", "punct"), (";", "punct")]
@@ -447,8 +449,10 @@ def _(p, i, r):
 
 
 def _void_param(l):
-    for j in range(len(l.segs) - 2):
-        if l.segs[j][0] == "(" and l.segs[j + 1] == ("void", "type") and l.segs[j + 2][0] == ")":
+    """index of the `void` of the function's own empty parameter list (not of a function-pointer parameter)"""
+    for j in range(1, len(l.segs) - 2):
+        if (l.segs[j - 1][1] == "id:func" and l.segs[j][0] == "(" and l.segs[j + 1] == ("void", "type")
+                and l.segs[j + 2][0] == ")"):
             return j + 1
     return None
 
@@ -808,7 +812,7 @@ def _(p, i, r):
     return i
 
 
-@op("V54", "stmt_on_control_line", "TOO_MANY_INSTR", ("ctrl",))
+@op("V54", "stmt_on_control_line", ("TOO_MANY_INSTR", "EXP_NEWLINE"), ("ctrl",))
 def _(p, i, r):
     l = p.lines[i]
     n = p.lines[i + 1]
@@ -907,9 +911,9 @@ def _(p, i, r):
     k = js[0]
     which = r.randrange(2)
     if which == 0:
-        l.segs[k + 2:] = [("1", "const:int"), SP, ("+", "op:bin"), SP, ("2", "const:int")]
+        l.segs[k + 1:] = [SP, ("1", "const:int"), SP, ("+", "op:bin"), SP, ("2", "const:int")]
     else:
-        l.segs[k + 2:] = [("(", "punct"), ("1", "const:int"), (")", "punct")]
+        l.segs[k + 1:] = [SP, ("(", "punct"), ("1", "const:int"), (")", "punct")]
     return i
 
 
